@@ -10,26 +10,74 @@ open SophiaModel SophiaModel.JsonLd
 
 theorem idTerm_rdfNil : idTerm rdfNil = .iri rdfNil := by decide
 
-/-- value level of the round trip: with no list node marked and rdf_direction unset, every stored object value
-(plain / typed / language-tagged / rdf:JSON literal, IRI, blank node, rdf:nil) is rendered to a JSON value that
-the reader maps back to the same term, without auxiliary triples -/
+/-! ### base direction options -/
+
+theorem startsWith_eq : ∀ (a b : Str), startsWith a b = true → a = b ++ a.drop b.length
+  | _, [], _ => rfl
+  | [], _ :: _, h => by simp [startsWith] at h
+  | x :: xs, y :: ys, h => by
+    simp only [startsWith, Bool.and_eq_true, beq_iff_eq] at h
+    obtain ⟨rfl, h2⟩ := h
+    simp only [List.cons_append, List.length_cons, List.drop_succ_cons]
+    rw [← startsWith_eq xs ys h2]
+
+theorem splitUnderscore_join : ∀ (s a b : Str), splitUnderscore s = (a, some b) → s = a ++ '_' :: b
+  | [], a, b, h => by simp [splitUnderscore] at h
+  | c :: cs, a, b, h => by
+    unfold splitUnderscore at h
+    split at h
+    · rename_i hc
+      have : c = '_' := by simpa using hc
+      subst this
+      simp only [Prod.mk.injEq, Option.some.injEq] at h
+      obtain ⟨rfl, rfl⟩ := h
+      rfl
+    · simp only [Prod.mk.injEq] at h
+      obtain ⟨rfl, h2⟩ := h
+      have := splitUnderscore_join cs (splitUnderscore cs).1 b (by rw [← h2])
+      simp only [List.cons_append]
+      rw [← this]
+
+/-- the stored value survives the `rdf_direction` option: anything but a typed literal; with `i18n-datatype`, a typed
+literal whose datatype is outside the i18n namespace or is a well-formed `https://www.w3.org/ns/i18n#<lang>_<dir>`
+(both parts non-empty; `…#_rtl` is NOT: finding C12-i18n-datatype-without-language) -/
+def LitOk (o : Opts) : RdfObject → Prop
+  | .typed _ dt => o.dir = .i18n → startsWith dt nsI18n = true →
+      ∃ tag d, tag ≠ [] ∧ d ≠ [] ∧ splitUnderscore (dt.drop nsI18n.length) = (tag, some d)
+  | _ => True
+
+/-- value level of the round trip: with no list node marked and no compound-literal candidate, every stored object value
+(plain / typed / language-tagged / rdf:JSON literal, well-formed i18n-datatype literal when that option is on, IRI,
+blank node, rdf:nil) is rendered to a JSON value that the reader maps back to the same term, without auxiliary triples -/
 theorem value_roundtrip (o : Opts) (E : Engine) (fuel : Nat) (v : RdfObject) (base : Str) (n : Nat)
-    (hd : o.dir = .none) (hln : E.listNode = [])
+    (hc : o.dir = .compound → E.compound = []) (hln : E.listNode = []) (hlit : LitOk o v)
     (hid : ∀ i id, v = .node i id → (prefix2 id).isSome = true) :
     ∃ val, convert o E fuel v = .ok val ∧ valRdf o base val n = (objTerm v, [], n) := by
   cases v with
   | langString lex tag =>
     refine ⟨_, by unfold convert; rfl, ?_⟩
-    simp [valRdf, hd, objTerm]
+    cases hdir : o.dir <;> simp [valRdf, hdir, objTerm]
   | typed lex dt =>
     refine ⟨_, by unfold convert; rfl, ?_⟩
     unfold convertLiteral
-    simp only [hd]
-    by_cases hj : dt = rdfJson
-    · subst hj; simp [valRdf, objTerm]
-    · by_cases hx : dt = xsdString
-      · subst hx; simp [valRdf, objTerm, hd, hj]
-      · simp [valRdf, objTerm, hd, hj, hx]
+    by_cases hi : (o.dir == .i18n && startsWith dt nsI18n) = true
+    · simp only [Bool.and_eq_true, beq_iff_eq] at hi
+      obtain ⟨tag, d, ht, hdn, hsp⟩ := hlit hi.1 hi.2
+      have hdt : dt = nsI18n ++ (tag ++ '_' :: d) := by
+        have h1 := startsWith_eq dt nsI18n hi.2
+        rw [splitUnderscore_join _ _ _ hsp] at h1
+        exact h1
+      have ht' : tag.isEmpty = false := by cases tag <;> simp_all
+      have hd' : d.isEmpty = false := by cases d <;> simp_all
+      simp only [hi.1, hi.2, beq_self_eq_true, Bool.and_self, if_true, hsp, ht', hd', Bool.false_eq_true, if_false]
+      simp [valRdf, hi.1, objTerm, hdt]
+    · have hi' : (o.dir == .i18n && startsWith dt nsI18n) = false := by simpa using hi
+      simp only [hi', Bool.false_eq_true, if_false]
+      by_cases hj : dt = rdfJson
+      · subst hj; simp [valRdf, objTerm]
+      · by_cases hx : dt = xsdString
+        · subst hx; cases hdir : o.dir <;> simp [valRdf, objTerm, hdir, hj]
+        · cases hdir : o.dir <;> simp [valRdf, objTerm, hdir, hj, hx]
   | node i id =>
     have hp := hid i id rfl
     unfold convert
@@ -43,20 +91,23 @@ theorem value_roundtrip (o : Opts) (E : Engine) (fuel : Nat) (v : RdfObject) (ba
         refine ⟨.ref id, ?_, by simp [valRdf, objTerm]⟩
         simp only [beq_iff_eq, hn, if_false]
         by_cases hpb : p = ['_', ':']
-        · simp [hpb, hln, lookup, hd]
+        · have hcc : ¬ (o.dir = .compound ∧ i ∈ E.compound) := fun ⟨h1, h2⟩ => by
+            rw [hc h1] at h2; cases h2
+          simp [hpb, hln, lookup, hcc]
         · simp [hpb]
 
 /-- the same for all the values of one key: `subject key [v₁ … vₙ]` reads back as the n triples -/
 theorem values_roundtrip (o : Opts) (E : Engine) (base : Str) (s p : Term)
-    (hd : o.dir = .none) (hln : E.listNode = []) :
+    (hc : o.dir = .compound → E.compound = []) (hln : E.listNode = []) :
     ∀ (vals : List RdfObject) (n : Nat),
-      (∀ v ∈ vals, ∀ i id, v = .node i id → (prefix2 id).isSome = true) →
+      (∀ v ∈ vals, LitOk o v ∧ ∀ i id, v = .node i id → (prefix2 id).isSome = true) →
       ∃ vs, convertAll o E vals = .ok vs ∧
         valsRdf o base s p vs n = (vals.map (fun v => (s, p, objTerm v)), n)
   | [], n, _ => ⟨[], by simp [convertAll], by simp [valsRdf]⟩
   | v :: rest, n, hid => by
-    obtain ⟨val, h1, h2⟩ := value_roundtrip o E (convFuel E) v base n hd hln (hid v List.mem_cons_self)
-    obtain ⟨vs, h3, h4⟩ := values_roundtrip o E base s p hd hln rest n
+    obtain ⟨val, h1, h2⟩ := value_roundtrip o E (convFuel E) v base n hc hln (hid v List.mem_cons_self).1
+      (hid v List.mem_cons_self).2
+    obtain ⟨vs, h3, h4⟩ := values_roundtrip o E base s p hc hln rest n
       (fun w hw => hid w (List.mem_cons_of_mem _ hw))
     refine ⟨val :: vs, by simp [convertAll, h1, h3], ?_⟩
     simp [valsRdf, h2, h4]
@@ -83,14 +134,14 @@ theorem typeIds_ok : ∀ (vals : List RdfObject), (∀ v ∈ vals, v.isNode = tr
 
 /-- node-object level: `make_node_object` followed by the reader gives back the triples the slot holds -/
 theorem entries_roundtrip (o : Opts) (E : Engine) (base : Str) (s : Term)
-    (hd : o.dir = .none) (hln : E.listNode = []) :
+    (hc : o.dir = .compound → E.compound = []) (hln : E.listNode = []) :
     ∀ (m : NodeMap) (n : Nat),
       (∀ k vs, (k, vs) ∈ m → ∀ v ∈ vs, (k = kType → v.isNode = true) ∧
-        ∀ i id, v = .node i id → (prefix2 id).isSome = true) →
+        (∀ i id, v = .node i id → (prefix2 id).isSome = true) ∧ (k ≠ kGraph → LitOk o v)) →
       ∃ es, makeEntries o E m = .ok es ∧ entriesRdf o base s es n = (slotTriples s m, n)
   | [], n, _ => ⟨[], rfl, rfl⟩
   | (k, vals) :: rest, n, h => by
-    obtain ⟨es, h1, h2⟩ := entries_roundtrip o E base s hd hln rest n
+    obtain ⟨es, h1, h2⟩ := entries_roundtrip o E base s hc hln rest n
       (fun k' vs' hm => h k' vs' (List.mem_cons_of_mem _ hm))
     have hk := h k vals List.mem_cons_self
     by_cases hg : k = kGraph
@@ -104,7 +155,8 @@ theorem entries_roundtrip (o : Opts) (E : Engine) (base : Str) (s : Term)
           simp [makeEntries, this, h3, h1]
         · have : (kType == kGraph) = false := by decide
           simp [entriesRdf, slotTriples, this, h2, h4 s]
-      · obtain ⟨vs, h3, h4⟩ := values_roundtrip o E base s (.iri k) hd hln vals n (fun v hv => (hk v hv).2)
+      · obtain ⟨vs, h3, h4⟩ := values_roundtrip o E base s (.iri k) hc hln vals n
+          (fun v hv => ⟨(hk v hv).2.2 hg, (hk v hv).2.1⟩)
         refine ⟨(k, .vals vs) :: es, ?_, ?_⟩
         · simp [makeEntries, hg, ht, h3, h1]
         · simp [entriesRdf, slotTriples, hg, h4, h2, keyPred, ht]
